@@ -513,12 +513,14 @@ Qed.
 
 Definition ecc_curve (mi : N) : N := if mi =? 0 then 256 else if mi =? 1 then 384 else 521.
 Definition ecc_hs (mi : N) : N := if mi =? 0 then 32 else if mi =? 1 then 48 else 66.
-Definition ecc_items_wf (hs cnt : N) (items : list (list N)) : Prop :=
-  (cnt <= 1 -> items = []) /\ (1 < cnt -> length items = N.to_nat cnt /\ Forall (fun x => length x = N.to_nat hs) items).
+(* digest length of the table entries: SHA-256 / SHA-384 / SHA-512 *)
+Definition ecc_hl (mi : N) : N := if mi =? 0 then 32 else if mi =? 1 then 48 else 64.
+Definition ecc_items_wf (hl cnt : N) (items : list (list N)) : Prop :=
+  (cnt <= 1 -> items = []) /\ (1 < cnt -> length items = N.to_nat cnt /\ Forall (fun x => length x = N.to_nat hl) items).
 Definition wf_dc_ecc (d : dc) : Prop :=
   d_major d = 2 /\ (d_minor d = 0 \/ d_minor d = 1 \/ d_minor d = 2) /\ u32_ok (d_socc d) /\ length (d_uuid d) = 16%nat /\
   (exists used cnt items, d_meta d = RMEcc (ecc_hs (d_minor d)) used cnt items /\ flags_validate used cnt = true
-                          /\ ecc_items_wf (ecc_hs (d_minor d)) cnt items) /\
+                          /\ ecc_items_wf (ecc_hl (d_minor d)) cnt items) /\
   ecc_key_wf (ecc_curve (d_minor d)) (d_dck d) /\ u32_ok (d_socu d) /\ u32_ok (d_vu d) /\ u32_ok (d_beacon d) /\
   ecc_key_wf (ecc_curve (d_minor d)) (d_rot d) /\ length (d_sig d) = (2 * N.to_nat (ecc_hs (d_minor d)))%nat.
 
@@ -580,7 +582,9 @@ Proof.
     rewrite firstn_app_len by (now rewrite Lfb). rewrite Pfb. cbn [bind]. rewrite skipn_app_len by (now rewrite Lfb).
     do 2 f_equal. destruct Hit as [Hi1 Hi2]. destruct (1 <? cnt) eqn:E1.
     - apply N.ltb_lt in E1. destruct (Hi2 E1) as [Hl Hf]. unfold tb.
-      assert (E2 : (1 <? length items)%nat = true) by (apply Nat.ltb_lt; lia). rewrite E2. rewrite <- Hl. now apply chunks_concat.
+      assert (E2 : (1 <? length items)%nat = true) by (apply Nat.ltb_lt; lia). rewrite E2. rewrite <- Hl.
+      assert (Eis : ecc_item_size hs = N.to_nat (ecc_hl mi)) by (unfold hs, ecc_hs, ecc_hl; destruct Hmi as [-> | [-> | ->]]; reflexivity).
+      rewrite Eis. now apply chunks_concat.
     - apply N.ltb_ge in E1. now rewrite (Hi1 E1). }
   rewrite Emp. cbn [bind]. rewrite Emb. cbn [bind].
   assert (U2 : unpack_from [FS (2 * N.to_nat hs); FS (2 * N.to_nat hs); FS (2 * N.to_nat hs)] b (36 + length mb) = Ok [XB rb; XB db; XB sig]).
@@ -753,64 +757,43 @@ Proof.
 Qed.
 
 (* ====================================================================================== *)
-(* recorded defects (refutations by computation) and finite sweeps over the database        *)
+(* finite sweep over the database: parse selects the class the credential was created with  *)
 (* ====================================================================================== *)
-(* protocol 2.2 with two RoT keys: the credential SPSDK creates does not parse back (64-byte SHA-512 entries are cut as 66) *)
-Lemma dc_roundtrip_p521_refuted_lemma :
-  exists ks dck sig d b,
-    dc_create 0 1 4 ks 0 dck (zeros 16) 1 2 3 false = Ok (CEcc, d)
-    /\ dc_export CEcc (dc_with_sig d sig) = Ok b /\ dc_parse_class CEcc b = Err 2.
-Proof.
-  exists [g521; g521], g521, (repeat 7 132).
-  destruct (dc_create 0 1 4 [g521; g521] 0 g521 (zeros 16) 1 2 3 false) as [[c d]|] eqn:E; [|vm_compute in E; discriminate].
-  assert (Hc : c = CEcc) by (vm_compute in E; inversion E; reflexivity). subst c.
-  exists d. destruct (dc_export CEcc (dc_with_sig d (repeat 7 132))) as [b|] eqn:EB.
-  - exists b. split; [reflexivity|]. split; [reflexivity|].
-    vm_compute in E. inversion E; subst d. clear E. vm_compute in EB. inversion EB; subst b. clear EB.
-    vm_compute. reflexivity.
-  - exfalso. vm_compute in E. inversion E; subst d. vm_compute in EB. discriminate.
-Qed.
-
-(* DebugCredentialCertificate.parse picks the class from the facts of the SOCC's family ambassador; the credential was
-   created with the facts of its own family/revision *)
-Definition res_klass_eqb (a b : res (option klass)) : bool :=
-  match a, b with
-  | Ok (Some x), Ok (Some y) => (klass_id x =? klass_id y)%Z
-  | Ok None, Ok None => true
-  | Err j, Err k => j =? k
-  | _, _ => false
-  end.
+(* DebugCredentialCertificate.parse picks the class from the facts of the SOCC's family ambassador (falling back to the
+   container-v1 EdgeLock class when that family uses container v2, whose parser has refused the data first); the credential
+   was created with the facts of its own family/revision *)
 Definition amb_facts (socc : N) : option (N * N) :=
   match find (fun r => fst r =? socc) g_socc_table with Some (_, (e, c, _, _)) => Some (e, c) | None => None end.
+Definition parse_class (ae ac maj mi : N) : res klass :=
+  match class_of ae ac maj mi with Ok (Some c) => Ok c | Ok None => Ok CEle | Err k => Err k end.
 Definition dispatch_agrees (fam : N * (N * N * N)) (v : N * N) : bool :=
   let '(socc, (ele, cnt, _)) := fam in
   match amb_facts socc with
   | None => false
-  | Some (ae, ac) => res_klass_eqb (class_of ele cnt (fst v) (snd v)) (class_of ae ac (fst v) (snd v))
+  | Some (ae, ac) =>
+      match class_of ele cnt (fst v) (snd v), parse_class ae ac (fst v) (snd v) with
+      | Ok (Some c), Ok c' => (klass_id c =? klass_id c')%Z
+      | Ok None, _ => true          (* a container-v2 credential (AHAB certificate) is taken by the first step of parse *)
+      | Err j, Err k => j =? k
+      | _, _ => false
+      end
   end.
-(* the recorded class: an EdgeLock container-version-1 revision whose SOCC is answered by a container-version-2 family,
-   any protocol version other than 2.0 *)
-Definition dispatch_known (fam : N * (N * N * N)) (v : N * N) : bool :=
-  let '(socc, (ele, cnt, _)) := fam in
-  match amb_facts socc with
-  | Some (ae, ac) => negb (ele =? 0) && (cnt =? 1) && (ac =? 2) && negb ((fst v =? 2) && (snd v =? 0))
-  | None => false
-  end.
-Lemma parse_dispatch_except_known_lemma :
-  forall fam v, In fam g_family_table -> In v g_versions -> dispatch_known fam v = false -> dispatch_agrees fam v = true.
+Lemma parse_dispatch_lemma :
+  forall fam v, In fam g_family_table -> In v g_versions -> dispatch_agrees fam v = true.
 Proof.
-  assert (H : forallb (fun fam => forallb (fun v => dispatch_known fam v || dispatch_agrees fam v) g_versions) g_family_table = true)
+  assert (H : forallb (fun fam => forallb (fun v => dispatch_agrees fam v) g_versions) g_family_table = true)
     by (vm_compute; reflexivity).
-  intros fam v Hf Hv Hk. rewrite forallb_forall in H. specialize (H fam Hf). rewrite forallb_forall in H. specialize (H v Hv).
-  rewrite Hk in H. exact H.
+  intros fam v Hf Hv. rewrite forallb_forall in H. specialize (H fam Hf). rewrite forallb_forall in H. exact (H v Hv).
 Qed.
-Lemma parse_dispatch_refuted_lemma :
-  exists fam v, In fam g_family_table /\ In v g_versions /\ dispatch_agrees fam v = false.
+(* the sweep is not vacuous: some revision is created with EdgeLock container v1 while its SOCC's ambassador uses v2 *)
+Lemma parse_dispatch_fallback_used :
+  exists fam, In fam g_family_table /\ (let '(socc, (ele, cnt, _)) := fam in
+     negb (ele =? 0) && (cnt =? 1) && match amb_facts socc with Some (_, ac) => ac =? 2 | None => false end) = true.
 Proof.
-  assert (H : existsb (fun fam => existsb (fun v => negb (dispatch_agrees fam v)) g_versions) g_family_table = true)
+  assert (H : existsb (fun fam => let '(socc, (ele, cnt, _)) := fam in
+     negb (ele =? 0) && (cnt =? 1) && match amb_facts socc with Some (_, ac) => ac =? 2 | None => false end) g_family_table = true)
     by (vm_compute; reflexivity).
-  apply existsb_exists in H as (fam & Hf & H). apply existsb_exists in H as (v & Hv & H).
-  exists fam, v. repeat split; try assumption. now apply negb_true_iff.
+  apply existsb_exists in H as (fam & Hf & H). now exists fam.
 Qed.
 
 (* ====================================================================================== *)
@@ -837,7 +820,10 @@ Lemma dc_rot_hash_rsa_lemma ele cnt socc ks rot_id dck uuid socu vu beacon fca d
 Proof.
   unfold dc_create. destruct (nth_error ks (N.to_nat rot_id)) as [rot|]; [|discriminate].
   destruct (version_of_key rot) as [v|]; [|discriminate]. cbn [bind].
-  destruct (class_of ele cnt (fst v) (snd v)) as [[c|]|]; cbn [bind]; try discriminate.
+  destruct (class_of ele cnt (fst v) (snd v)) as [oc|]; cbn [bind]; [|discriminate].
+  destruct (negb (length uuid =? 16)%nat); [discriminate|].
+  destruct (negb (Bool.eqb (is_ecc_key dck) (is_ecc_key rot) && (key_bits dck =? key_bits rot))); [discriminate|].
+  destruct oc as [c|]; [|discriminate].
   destruct (rot_meta_create c ks rot_id fca) as [m|] eqn:EM; [|discriminate]. cbn [bind].
   intros H; inversion H; subst. clear H.
   unfold dc_with_sig. cbn [d_major d_minor d_socc d_uuid d_meta d_dck d_socu d_vu d_beacon d_rot d_sig].
